@@ -16,6 +16,7 @@ import (
 	"fmt"
 	"runtime"
 	"strconv"
+	"strings"
 	"sync"
 	"testing/synctest"
 	"time"
@@ -44,6 +45,7 @@ type Task struct {
 	kill    bool
 	bootAcq bool
 	stall   time.Duration
+	stallOK bool // StallFilter matched at the last park
 	Panic   interface{}
 	Stack   string
 }
@@ -68,7 +70,13 @@ type Sim struct {
 	last     int // last task run (for the default policy)
 	schedGid uint64
 	stalling int32
-	start    time.Time
+	// StallFilter, when set, restricts injected stalls to tasks parked with a
+	// function whose name contains it on their stack (a slow component
+	// rather than a uniformly slow machine).
+	StallFilter string
+	// StallTotal is the sum of all stalls injected so far (they may overlap in time).
+	StallTotal time.Duration
+	start      time.Time
 
 	// configuration
 	StallProb int // per 10000 yields
@@ -245,6 +253,9 @@ func (s *Sim) park(t *Task, site int) {
 			}
 			raceDisable()
 		}
+		if s.StallFilter != "" {
+			t.stallOK = callerMatches(s.StallFilter)
+		}
 		s.mu.Lock()
 		t.state = tParked
 		t.site = int32(site)
@@ -271,6 +282,7 @@ func (s *Sim) park(t *Task, site int) {
 			t.stall = 0
 			s.mu.Lock()
 			s.stalling++
+			s.StallTotal += d
 			s.mu.Unlock()
 			time.Sleep(d)
 			s.mu.Lock()
@@ -359,6 +371,27 @@ func (s *Sim) launch(t *Task, site int, fn func()) {
 		raceEnable()
 		fn()
 	}()
+}
+
+// callerMatches reports whether a function on the calling goroutine's stack
+// has one of the '|'-separated alternatives of sub in its name.
+//
+//go:norace
+func callerMatches(sub string) bool {
+	var pcs [48]uintptr
+	n := runtime.Callers(3, pcs[:])
+	fr := runtime.CallersFrames(pcs[:n])
+	for {
+		f, more := fr.Next()
+		for _, alt := range strings.Split(sub, "|") {
+			if strings.Contains(f.Function, alt) {
+				return true
+			}
+		}
+		if !more {
+			return false
+		}
+	}
 }
 
 //go:norace
@@ -477,7 +510,7 @@ func (s *Sim) Run() string {
 		if s.TraceOn {
 			s.Trace = append(s.Trace, Step{s.Seq, int32(t.ID), t.site, now})
 		}
-		if s.StallProb > 0 && !t.Harness && s.Ch.Pick(KStall, 10000) < s.StallProb {
+		if s.StallProb > 0 && !t.Harness && (s.StallFilter == "" || t.stallOK) && s.Ch.Pick(KStall, 10000) < s.StallProb {
 			d := time.Duration(1+s.Ch.Pick(KStallDur, int(s.StallMax/time.Millisecond))) * time.Millisecond
 			t.stall = d
 			s.Stats.Stalls++
